@@ -420,9 +420,10 @@ func (s *scen) observe(kind, outcome, modelReply string, fullDump bool) {
 			key, extra := "tie-not-first-seen", ""
 			if s.moveFailed {
 				key = "tie-wrong-choice-after-failed-reorg"
-				d, _ := fallbackChoice(s.blocks)
+				d, _ := fallbackChoice(s.blocks, false)
+				d1, _ := fallbackChoice(s.blocks, true)
 				extra = fmt.Sprintf("; the documented fall-back choice after a failed reorganisation is #%d", d.idx)
-				if tb == d {
+				if tb == d || tb == d1 {
 					key, extra = "tie-not-first-seen-after-failed-reorg", ""
 				} else if mixedBits(tb, want) || mixedBits(tb, d) {
 					key = "float-work-exact-tie"
@@ -437,7 +438,7 @@ func (s *scen) observe(kind, outcome, modelReply string, fullDump bool) {
 				key = "not-most-work-fork-at-genesis"
 			} else if s.moveFailed && mixedBits(tb, want) {
 				// the fall-back after a failed reorganisation values a leaf by the work of the blocks ABOVE it only
-				d, top := fallbackChoice(s.blocks)
+				d, top := fallbackChoice(s.blocks, false)
 				hit := tb == d
 				for _, l := range top {
 					if l == tb && mixedBits(tb, d) { // equal exact values, sides with different bits: float rounding decides
